@@ -383,6 +383,10 @@ func (c *c14Ctx) replayLine(fx func() []*c14Fixture, line string, pool func() *c
 		if len(w) == 3 {
 			c.opSD([]byte(unhx(w[1])), []byte(unhx(w[2])))
 		}
+	case "gr":
+		if len(w) == 2 {
+			c.opGR(strings.Trim(w[1], "-"))
+		}
 	case "bs":
 		if len(w) == 2 {
 			c.opBS(unhx(w[1]))
